@@ -121,13 +121,14 @@ def _cases(tier, rng):
         if q % 2 == 0:  # memory storages persist at the end of a run: the kill points are the writes of that persist
             yield {"prog": prog, "storage": "dict", "faults": "ENUM-KILLS"}
     # quota: a function without a MapSpec whose (single) output is a list, stored before the failure of a later call
-    want, tries = (2 if tier == "quick" else 20), 0
-    while want and tries < 20000:
+    want, tries = (4 if tier == "quick" else 40), 0
+    while want and tries < 40000:
         tries += 1
         prog = progs.gen_map_program(rng, n_funcs=rng.randint(2, 3), allow_generator=False)
         _, calls = progs.denote(prog)
         fs = prog["funcs"]
-        if not 2 <= len(calls) <= 8 or not any(f.get("plain_array") and f.get("as_list") and len(f["outputs"]) == 1
+        kind = True if want % 2 else "tuple"  # list-valued and tuple-valued outputs alternate
+        if not 2 <= len(calls) <= 8 or not any(f.get("plain_array") and f.get("as_list") == kind and len(f["outputs"]) == 1
                                                for f in fs[:-1]):
             continue
         want -= 1
